@@ -828,7 +828,7 @@ PROPS["C12"].update({
                   "every misalignment), reader preempted at every shared operation and in the middle of its copy while "
                   "the writer completes stores, writer preempted while readers load, single-writer exclusion. "
                   + _SCHED + "; the payload copy is split into two halves with a preemption point in between.",
-    "level_note": "payload [u32;2], <= 2 loads with <= 2 writer actions (and the mirror image), SC interleavings only; weak-memory reorderings and payloads "
+    "level_note": "payload [u32;2], <= 2 loads with <= 2 writer actions and the mirror image (thorough: 3 writer actions / 2 loads inside the stores), SC interleavings only; weak-memory reorderings and payloads "
                   "copied in more than two pieces are outside the claim",
 })
 PROPS["C13"].update({
@@ -883,6 +883,7 @@ c13_q_race_detach_before_registration c13_forced_removal
 c05_ev_history c05_bitset_history_deep
 c14_container
 c19_cross_domain_direct c19_cross_domain_direct_mixed_len c19_path_for_shape
+c12_s_reader_outer_deep c12_s_writer_outer_deep
 """.split())
 for _p in PROPS:
     for _h in PROPS[_p]["harnesses"]:
